@@ -342,4 +342,57 @@ theorem pathOut_same (r : Parsed) (ui host : Bytes) (num : Bool) (port : Option 
     pathOut { proto := r.proto, image := r.image, userInfo := ui, host := host, numeric := num, port := port, path := r.path }
       = pathOut r := rfl
 
+/-! ### CONNECT targets and name hosts -/
+
+theorem regname_facts : ∀ c : UInt8, (!REGNAME.mem c || c != 91) = true :=
+  forall_octet _ (by decide +kernel)
+
+theorem parsePortTok_decimal (p : Nat) (h1 : 1 ≤ p) (h2 : p ≤ 65535) : parsePortTok (decimal p) = .ok (p, []) := by
+  rcases decimal_spec p with ⟨hv, hd, hne, hh⟩
+  unfold parsePortTok
+  cases hx : decimal p with
+  | nil => exact absurd hx hne
+  | cons c r =>
+    have hc : c ≠ 48 := by
+      have := hh h1
+      rw [hx] at this
+      simpa using this
+    rw [hx] at hd hv
+    simp only [hc, ↓reduceIte, takeWhile_all isDigit (c :: r) hd, dropWhile_all isDigit (c :: r) hd, hv]
+    have : ¬ (p > i64Max) := by unfold i64Max; omega
+    have h3 : ¬ (p > 65535) := by omega
+    simp [this, h3]
+
+/-- what an accepting `finish` established about a short name host, when no `append_domain` is configured -/
+theorem finish_name_facts {cfg : Config} {ip : Bytes → IpClass} {proto : Nat} {image login fh : Bytes} {port : Int} {path : Bytes}
+    {r : Parsed} (hf : finish cfg ip proto image login fh port path = .ok r) (hname : r.numeric = false)
+    (hshort : r.host.length < SQUIDHOSTNAMELEN - 1) (had : cfg.appendDomain = []) :
+    r.host = stripTrailingDots (lowerStrip cfg fh) ∧ NoUpper r.host ∧ r.host.getLast? ≠ some 46 ∧
+      (cfg.checkHostnames = true → r.host.all (hostnameSet cfg).mem = true) ∧ hasDotDot r.host = false ∧
+      r.host.head? ≠ some 46 ∧ setHost ip r.host = some (r.host, false) ∧
+      ∃ p : Nat, port = (p : Int) ∧ 1 ≤ p ∧ p ≤ 65535 ∧ r.port = some p := by
+  rcases finish_ok hf with ⟨h4, p0, harg, hdd, hhead, hp1, hp2, hpw, hset, hproto, himage, hlogin, hport, hpath0⟩
+  rw [hname] at hset
+  have hhost : r.host = h4 := by
+    have := setHost_name hset
+    rw [this] at hshort ⊢
+    rw [List.length_take] at hshort
+    exact List.take_of_length_le (by omega)
+  have harg' : hostArg cfg fh = some (stripTrailingDots (lowerStrip cfg fh)) := by
+    unfold hostArg appendDomain; simp [had]
+  have h4eq : h4 = stripTrailingDots (lowerStrip cfg fh) := by
+    rw [harg'] at harg; simpa using harg.symm
+  refine ⟨by rw [hhost, h4eq], ?_, ?_, ?_, by rw [hhost]; exact hdd, by rw [hhost]; exact hhead, ?_, ?_⟩
+  · rw [hhost]; exact hostArg_noUpper (by rw [had]; intro c hc; simp at hc) harg
+  · rw [hhost]; exact hostArg_getLast harg
+  · intro hc
+    have hall := finish_ok_chars hf hc
+    rw [hhost, h4eq, List.all_eq_true]
+    intro c hc'
+    exact (List.all_eq_true.mp hall) c (stripTrailingDots_subset hc')
+  · have h2 := hset
+    rw [← hhost] at h2
+    exact h2
+  · exact ⟨port.toNat, by omega, by omega, by omega, by simpa using hport⟩
+
 end SquidModel.Uri
